@@ -10,7 +10,7 @@ RULE = ("seeded histories (10-60 ops) from simulated nodes, bootloaders and a co
         "one hostile line was processed while a smart-sleep node or an OTA session existed and a later probe was answered; "
         "distinct = distinct run digests")
 TIERS = {
-    "quick": {"runs": 1600, "max_wall": 240, "minimise_s": 25, "chunk": 25},
+    "quick": {"runs": 3000, "max_wall": 240, "minimise_s": 25, "chunk": 25},
     "thorough": {"runs": 120000, "max_wall": 3000, "minimise_s": 60, "chunk": 100},
 }
 FAULT_KINDS = ["corrupted line", "truncated frame", "garbage text", "tier-A invalid frame", "malformed stream request",
@@ -39,7 +39,7 @@ def gen(rng, tier, index):
         if rng.random() < 0.2:
             cfg["pub_raise"] = sorted(rng.sample(range(30), 4))
     n_ops = rng.randint(10, 60 if tier == "thorough" else 40)
-    ops = netgen.make_ops(rng, cfg["version"], n_ops, WEIGHTS, probes_after_hostile=True, hostile_values=True, scenario=0.2)
+    ops = netgen.make_ops(rng, cfg["version"], n_ops, WEIGHTS, probes_after_hostile=True, hostile_values=True, scenario=0.3)
     if rng.random() < 0.12:
         # histories in which the id space is exhausted early
         ops.insert(rng.randrange(0, 3), ["line", f"{rng.choice([254, 254, 255])};255;0;0;17;2.0"])
